@@ -66,6 +66,10 @@ class LiftedScript:
     def __init__(self, stmts, dialect="ansi", fresh=True):
         _install()
         self.dialect = dialect
+        # a statement given as None stands for text that parses without violations but yields NO statement segment
+        # (a templater comment, a bare T-SQL GO, ...): its handle maps to an empty segment list
+        self.empty_at = [i for i, s in enumerate(stmts) if s is None]
+        stmts = [s for s in stmts if s is not None]
         self.stmts = [parse_one(s, dialect, fresh=fresh) if isinstance(s, str) else s for s in stmts]
         _state["counter"] += 1
         self.script_handle = "<lx-script-%d>" % _state["counter"]
@@ -78,16 +82,26 @@ class LiftedScript:
                 if s not in self.slots:
                     self.slots.append(s)
 
-    def runner(self, names=None, resolve=None, provider=None, anycase_tag=None, **kw):
+    def runner(self, names=None, resolve=None, provider=None, anycase_tag=None, tsql=False, **kw):
         """symbolise and return a real (unevaluated) LineageRunner"""
         from sqllineage.runner import LineageRunner
 
         res = resolve or default_resolver(names)
         for i, ps in enumerate(self.stmts):
             ps.symbolise(res, anycase_tag=("%s_s%d" % (anycase_tag, i)) if anycase_tag else None)
-        _state["scripts"][self.script_handle] = self.handles
+        handles = list(self.handles)
+        for n, i in enumerate(self.empty_at):
+            eh = "{# nothing to analyse #} /*lx-empty%d*/" % n
+            handles.insert(i, eh)
+            _state["trees"][eh] = []
+        _state["scripts"][self.script_handle] = handles
         for h, ps in zip(self.handles, self.stmts):
             _state["trees"][h] = [ps.seg]
+        if tsql:
+            # T-SQL no-semicolon mode: the script itself goes to the parse entry point, which yields every statement
+            _state["trees"][self.script_handle] = [ps.seg for ps in self.stmts]
+        else:
+            _state["trees"].pop(self.script_handle, None)
         if provider is not None:
             kw["metadata_provider"] = provider
         with warnings.catch_warnings():
@@ -153,10 +167,13 @@ def dedupe(xs):
     return out
 
 
-def dump_runner(lr, full_paths=False) -> Dump:
+def dump_runner(lr, full_paths=False, quiet=True) -> Dump:
     """evaluate a (lifted) LineageRunner through its public accessors"""
-    with warnings.catch_warnings():
-        warnings.simplefilter("ignore")
+    import contextlib
+
+    with (warnings.catch_warnings() if quiet else contextlib.nullcontext()):
+        if quiet:
+            warnings.simplefilter("ignore")
         src = [str(t) for t in lr.source_tables]
         tgt = [str(t) for t in lr.target_tables]
         mid = [str(t) for t in lr.intermediate_tables]
